@@ -40,10 +40,25 @@ CAP_S = {"quick": 900, "thorough": 3600}
 SHAPES = [(), (1,), (3,), (2, 2), (0,), (2, 1, 2), (2, 3), (2, 3, 2)]
 
 
+def _permute_fields(order):
+    """the same records with the fields of the structured dtype in another order (coordinates are found by name, not position)"""
+
+    def f(a):
+        plain = np.asarray(a.view(np.ndarray)) if isinstance(a, np.ndarray) else a
+        names = plain.dtype.names
+        perm = names[::-1] if order == "reversed" else names[1:] + names[:1]
+        out = np.empty(plain.shape, dtype=[(n, plain.dtype[n]) for n in perm])
+        for n in perm:
+            out[n] = plain[n]
+        return out.view(type(a)) if type(a) is not np.ndarray else out
+
+    return f
+
+
 def _layouts(shape, tier):
     """memory layouts of the same elements: the property is about arrays *of vectors*, so it must not depend on how the
     records are laid out (C / Fortran order, transposed, reversed or strided views)"""
-    out = [("C", lambda a: a)]
+    out = [("C", lambda a: a), ("fields-reversed", _permute_fields("reversed")), ("fields-rotated", _permute_fields("rotated"))]
     if len(shape) >= 1 and shape[0] > 1:
         out.append(("reversed", lambda a: a[::-1]))
         out.append(("strided", lambda a: a[::2]))
@@ -60,7 +75,7 @@ SYN = {"x": ["px"], "y": ["py"], "rho": ["pt"], "z": ["pz"], "t": ["E", "e", "en
 
 
 def bounds(tier):
-    return {"tier": tier, "shapes": [list(s) for s in SHAPES], "systems": 20, "flavors": 2, "layouts": ["C", "reversed", "strided", "T", "F", "swapaxes+reversed"], "pickle_protocols": list(range(0, pickle.HIGHEST_PROTOCOL + 1)),
+    return {"tier": tier, "shapes": [list(s) for s in SHAPES], "systems": 20, "flavors": 2, "layouts": ["C", "reversed", "strided", "T", "F", "swapaxes+reversed", "dtype fields reversed", "dtype fields rotated"], "pickle_protocols": list(range(0, pickle.HIGHEST_PROTOCOL + 1)),
             "index_grammar": "ints and negative ints per axis, integer tuples, slices {None,0,1,-1} x steps {None,2,-1}, all boolean masks (size <= 4), Ellipsis, None, integer arrays"}
 
 
